@@ -183,6 +183,25 @@ def check(tier, seed):
             rep.violation("c15_msg_owner", "# a run-time diagnostic went to another program's message array (or the history did not run)\n# %s\n# trace: %s\n# crash: %s\n%s" % (bad[:3], tr, (hres[0].get("crash") or "")[-300:], item["src"]), True)
     finally:
         _sh.rmtree(d16, ignore_errors=True)
+    # (3d) the LABEL of a run-time diagnostic is the running program's own name, whatever was compiled after it (a string, a file whose
+    # name buffer is gone): `<stdin>:3: error: cannot divide by zero`, stored in the running program, nothing in the other one
+    LBL = "func safe(a : int) -> int\n{\n    10 / a\n}\nfunc main() -> int { 0 }\n"
+    other = os.path.join(VERIF, "corpus", "src", "loops.nev")
+    nlbl = 0
+    for post in (None, "func main() -> int { 2 }\n", "@file:" + other, "func main( -> int { 2 }\n"):
+        r = h.run(src=LBL, trace=False, calls="safe:0;safe:5;safe:0", post=post)
+        nlbl += 1
+        em = [bytes.fromhex(l.split()[1]).decode("latin1") for l in r["lines"] if l.startswith("emsg ") and len(l.split()) > 1]
+        pm = [l for l in r["lines"] if l.startswith(("postcompile", "postmsgs"))]
+        io = vm_corr.impl_outcome(r)
+        okl = len(em) == 2 and all(m.startswith("<stdin>:3: error: cannot divide by zero") for m in em)
+        grew = len(pm) == 2 and pm[0].split()[2] != "msgs=" + pm[1].split()[1]
+        if (not okl or grew or io["kind"].startswith(("sanitizer", "signal", "crash"))) and viol < 3:
+            viol += 1
+            rep.violation("c15_msg_label_%d" % nlbl, "# run-time diagnostics of a program compiled from a string must read `<stdin>:3: error: cannot divide by zero` (twice) and stay out of a program compiled later\n# compiled afterwards: %r\n# messages of the running program: %r\n# later program: %r\n# outcome %s stderr %s\n%s"
+                          % (post, em, pm, io["kind"], r["err"][-300:], LBL), True)
+        h.cleanup(r)
+    stats["msg_label_cases"] = nlbl
     # (4) a machine whose global initialisation FAILED: every later call must behave like the same call on a fresh machine (which
     # runs the initialisation again and fails again) — not return values computed from globals that were never built
     GINIT = "var z = 0; var a = 5; var b = 10 / z; var c = 7;\nfunc get(x : int) -> int { a + c + x }\nfunc main() -> int { get(1) }\n"
